@@ -13,6 +13,17 @@ PROPS = {
             "min/max follow CPython's 'keep the first unless the second is strictly better' rule (cross-checked natively by rt.c15)",
         ],
     },
+    "C16": {
+        "areas": ["contracts.serialize_opts"],
+        "rt": "rt.c16",
+        "level": "proof",
+        "technique": "contracts with exceptional postconditions on as_dict/as_obj and the six format front-ends (ghost option/dialect slots, try/finally executed symbolically on both edges), z3; bounded native fault injection for the reach of options into nested objects",
+        "level_text": "Proved for all inputs and for every exception the callee may raise: the class-level option and dialect slots hold exactly the given values during the nested (de)serialization and are reset on normal and exceptional exit of as_dict, as_obj and all six format front-ends (history statement = 'idle' is an invariant of every entry point). Key order, tags on every nested object and dialect keys are only covered by the bounded native run (coverage.bounded).",
+        "level_note": "Assumed: mashumaro-generated to_dict/from_dict call _serialize/__post_serialize__ on every nested object and do not write the two slots; orjson/msgpack/yaml are opaque and may raise. Trusted: pyvc encoding, z3.",
+        "assumptions": ["mashumaro to_dict/from_dict and user hooks do not assign the option / dialect class attributes",
+                        "no re-entrant as_dict/as_obj call from inside a serialization hook",
+                        "single-threaded use"],
+    },
 }
 
 NOT_APPLICABLE: dict[str, str] = {}
